@@ -1,31 +1,34 @@
 #!/bin/bash
 # C08 fires on the unchanged tree (three genuine defects, see candidate-fixes.diff), so `/verif/run-mutants C08`
 # reports DETECTED for every patch trivially. This script shows the mutant-specific detection: every mutant is
-# applied ON TOP OF the candidate fixes (scratch worktree, /repo untouched); the fixed tree alone must be quiet.
+# applied ON TOP OF the candidate fixes in ONE scratch worktree (outside /repo and /verif; /repo is never touched);
+# the fixed tree alone must be quiet.
 #   usage: mutants-on-fixed.sh [patch ...]      (default: the fixed tree alone, then all mutants/C08-*.patch)
 set -u
 HERE="$(cd "$(dirname "$0")" && pwd)"; VERIF="$(cd "$HERE/../.." && pwd)"
 FIX="$HERE/candidate-fixes.diff"
 PATCHES=("$@"); [ ${#PATCHES[@]} -eq 0 ] && PATCHES=(NONE "$VERIF"/mutants/C08-*.patch)
-MW="$VERIF/.work/mutfix-C08-$$"
+MW="$VERIF/.work/mutfix-C08"
+WT="/var/tmp/verif-mutfix-C08"
+git -C /repo worktree remove --force "$WT" 2>/dev/null
+git -C /repo worktree add -q --detach "$WT" HEAD || exit 2
 rc=0
 for P in "${PATCHES[@]}"; do
-  WT="/var/tmp/verif-mutfix-$$-$RANDOM"
-  git -C /repo worktree add -q --detach "$WT" HEAD || { rc=2; continue; }
+  git -C "$WT" checkout -q -- . 
   # the candidate fixes apply only while /repo does not carry them yet
   (cd "$WT" && git apply "$FIX" 2>/dev/null) || echo "note: candidate fixes do not apply (already in /repo?)"
   if [ "$P" != NONE ]; then
-    (cd "$WT" && patch -s -p1 --fuzz=3 < "$P") || { echo "MUTANT $(basename "$P"): does not apply on the fixed tree"; git -C /repo worktree remove --force "$WT"; rc=2; continue; }
+    (cd "$WT" && patch -s -p1 --fuzz=3 < "$P") || { echo "MUTANT $(basename "$P"): does not apply on the fixed tree"; rc=2; continue; }
   fi
   OUT=$(VERIF_REPO="$WT" VERIF_WORK="$MW" VERIF_EVIDENCE_DIR="$MW/evidence" VERIF_REPLAY_DIR="$MW/replays" "$VERIF/run" C08 "${MUT_TIER:-quick}" 2>&1); ec=$?
   V=$(echo "$OUT" | grep -c '^VIOLATION')
   S=$(echo "$OUT" | grep -m1 'signature:' | cut -c1-330)
   if [ "$P" = NONE ]; then
-    echo "FIXED TREE (no mutant): exit=$ec violations=$V  $(echo "$OUT" | tail -1 | cut -c1-160)"
+    echo "FIXED TREE (no mutant): exit=$ec violations=$V  $(echo "$OUT" | tail -1 | cut -c1-200)"
     [ $ec -eq 0 ] || rc=1
   elif [ $ec -eq 1 ] && [ $V -gt 0 ]; then echo "MUTANT-ON-FIXED $(basename "$P"): DETECTED (violations=$V) $S"
   else echo "MUTANT-ON-FIXED $(basename "$P"): MISSED (exit=$ec)"; echo "$OUT" | tail -4; rc=1; fi
-  git -C /repo worktree remove --force "$WT"
 done
+git -C /repo worktree remove --force "$WT"
 rm -rf "$MW"
 exit $rc
